@@ -213,6 +213,48 @@ def check_failure_messages_nonempty(ctx, rule='C02.R9'):
     ctx.count('foreign_exception_text_sites', n, 1)
 
 
+
+def check_no_value_store_on_sized_primitives(ctx):
+    """C02.R10: the length of a text / byte string / big integer item is fixed when the object is built."""
+    from ..ttlv import Schema
+    from ..astutil import all_functions
+    ctx.rule('C02.R10', 'server, client and pie code never assigns .value on a variable-length primitive that already exists (TextString, ByteString, BigInteger and their subclasses, reached as a field of a wire structure: key_block.key_value.key_material.value = ...): the length and padding count of such an item are computed once in its constructor, so a later store leaves them describing the old value and the item - and every structure around it - is encoded with a length field that does not match the bytes that follow; a new value needs a new object')
+    sch = Schema(ctx.src)
+    sized = set()
+    field_classes = {}
+    for ref, rfn, wfn in sch.codec_classes():
+        R = sch.extract(ref, rfn, 'read')
+        for e in R.events:
+            if e.get('cls') is not None:
+                field_classes.setdefault(e['ident'], set()).add(e['cls'])
+
+    def is_sized(ref, depth=0):
+        if ref is None or depth > 6:
+            return False
+        if ref[1] in ('TextString', 'ByteString', 'BigInteger') and ref[0].endswith('primitives.py'):
+            return True
+        return any(is_sized(b, depth + 1) for b in sch.ix.bases(ref))
+    n = 0
+    n_files = 0
+    for rel in ctx.src.modules('kmip/services') + ctx.src.modules('kmip/pie'):
+        t = ctx.src.tree(rel)
+        n_files += 1
+        for q, fn, cls in all_functions(t):
+            for x in walk_local(fn):
+                if not (isinstance(x, ast.Attribute) and x.attr == 'value' and isinstance(x.ctx, ast.Store) and isinstance(x.value, ast.Attribute)):
+                    continue
+                fld = x.value.attr.lstrip('_')
+                classes = field_classes.get(fld, set())
+                if not classes:
+                    continue
+                n += 1
+                bad = sorted(c[1] for c in classes if is_sized(c))
+                ctx.check(not bad, 'C02.R10', '%s|store %s' % (q, U(x)), '%s:%s %s' % (rel, x.lineno, q), '%s is not a sized primitive' % fld,
+                          '%s = ... replaces the value of an existing %s: its length (and padding count) were computed when it was built and now describe the old value, so the item is encoded with a wrong length field' % (U(x), '/'.join(bad)))
+    ctx.count('modules_scanned_for_value_stores', n_files, 10)
+    if not n:
+        ctx.ok('C02.R10', 'kmip/services, kmip/pie', 'no store to .value of a wire structure field')
+
 def run(ctx):
     src = ctx.src
     for rid, text in (
@@ -531,3 +573,6 @@ def run(ctx):
     if not lifted:
         ctx.ok('C02.R8', PRIM, 'padding counts are within 0..7 for all residues in constructor and reader of both classes')
     check_failure_messages_nonempty(ctx, 'C02.R9')
+    check_no_value_store_on_sized_primitives(ctx)
+    from .c16 import check_error_response_versions
+    check_error_response_versions(ctx, 'C02.R4')
